@@ -1,7 +1,7 @@
 """C19 — competing declarations are resolved by the CSS cascade."""
 from ..facts import AnchorMissing, callee_def, op_place, op_const, is_bare
 from ..util import (ends, site, fn_key, callee_method, require, has_call, has_field, find_dispatch,
-                    transitive_closures, field_accesses, dominated_by_true_edge, direct_field)
+                    transitive_closures, field_accesses, dominated_by_true_edge, direct_field, direct_place)
 from ..fin import Fin, Need, NotAnalysable
 
 EXPLANATION = (
@@ -29,7 +29,9 @@ def check(ctx):
     ctx.rule("C19-D", "computed_style offers rules in origin order agent, user, author with matching labels, then the "
              "style attribute as an inline author declaration; StyleOrigin is declared None<Agent<User<Author")
     ctx.rule("C19-E", "every merge_computed_style call passes the importance of the declaration it merges")
-    for rid, fn in (("C19-A", rule_a), ("C19-B", rule_b), ("C19-C", rule_c), ("C19-D", rule_d), ("C19-E", rule_e)):
+    ctx.rule("C19-F", "every parsed declaration reaches the cascade in source order: no filtering, de-duplicating, "
+             "truncating or reordering operation is applied to a sequence of declarations, style declarations or rule sets")
+    for rid, fn in (("C19-A", rule_a), ("C19-B", rule_b), ("C19-C", rule_c), ("C19-D", rule_d), ("C19-E", rule_e), ("C19-F", rule_f)):
         ctx.guard(rid, fn)
 
 
@@ -98,14 +100,14 @@ def rule_a(ctx):
     def oracle(fin, t, vals, env):
         m = callee_method(t)
         cd = callee_def(t) or ""
-        if m == "is_some" and ends(cd, "Option::<T>::is_some"):
+        if m in ("is_some", "is_none") and ends(cd, "Option::<T>::" + m):
             k = fin.sym_key(fin.arg_value(t, 0, vals, env), vals, env)
             if k is None:
-                raise NotAnalysable("is_some on a concrete value")
+                raise NotAnalysable("%s on a concrete value" % m)
             key = "is_some:" + k
             if key not in env:
                 raise Need(key, "bool")
-            return env[key]
+            return env[key] if m == "is_some" else 1 - int(env[key])
         if m in ("lt", "le", "gt", "ge", "eq", "ne") and len(t["args"]) == 2:
             a = fin.arg_value(t, 0, vals, env)
             c = fin.arg_value(t, 1, vals, env)
@@ -381,3 +383,49 @@ def rule_e(ctx):
             continue
         ctx.check(("arg", 2) in b.atoms(t["args"][1]) and ("arg", 3) in b.atoms(t["args"][2]) and ("arg", 4) in b.atoms(t["args"][3]),
                   "C19-E", "merge→maybe_update:args-straight#%s" % b.expr(t["args"][0]), t["span"], b.id, "")
+
+
+DECL_SEQ = ("StyleDecl", "Ruleset", "css::parser::Declaration", "css::parser::RuleSet", "css::Style,", "css::Style>")
+SEQ_OPS = ("rev", "reverse", "sort", "sort_by", "sort_by_key", "sort_unstable", "sort_unstable_by", "sort_unstable_by_key",
+           "swap", "swap_remove", "pop", "pop_front", "pop_back", "push_front", "insert", "remove", "rotate_left", "rotate_right",
+           "dedup", "dedup_by", "dedup_by_key", "retain", "retain_mut", "drain", "split_off", "truncate", "filter", "filter_map",
+           "skip", "skip_while", "take", "take_while", "step_by", "last", "nth", "find", "find_map", "position", "clear")
+
+
+def rule_f(ctx):
+    """The cascade decides between *all* declarations that apply: importance is compared before source order, so a
+    declaration may not be discarded early because a later one in the same block has the same property (or for any
+    other reason).  Expected count of such operations is zero; the css parser's `components.reverse()` on a selector
+    is the positive control that the query sees this kind of call."""
+    F = ctx.facts
+    if not ctx.has_css:
+        ctx.info("C19-F", "no stylesheet code in this configuration (css feature off): nothing to check")
+        return
+    n = 0
+    control = 0
+    for b in F.bodies.values():
+        if b.raw.get("from_expansion") and b.kind != "Closure":
+            continue
+        for bb, t in b.calls(lambda cd, t: callee_method(t) in SEQ_OPS and not ends(cd, "std::mem::take", "std::mem::swap")):
+            c = t["callee"]
+            tys = " ".join([c.get("self_ty") or ""] + list(c.get("targs") or []))
+            if "SelectorComponent" in tys and callee_method(t) == "reverse":
+                control += 1
+            if any(s in tys for s in DECL_SEQ):
+                n += 1
+                ctx.violation("C19-F", "%s:%s" % (fn_key(b), callee_method(t)), t["span"], b.id,
+                              "%s on a sequence of %s: a declaration could be discarded or reordered before the cascade "
+                              "compares importance, origin and specificity" % (callee_method(t), tys[:80]))
+    ctx.check(control >= 1, "C19-F", "positive-control:selector-reverse-found", "", "", "the query must see components.reverse() in the css parser")
+    # styles_from_properties returns the vector it pushed every declaration's style onto
+    sfp = F.one("css::styles_from_properties")
+    pushes = sfp.calls(lambda cd, t: callee_method(t) == "push" and "StyleDecl" in " ".join(t["callee"].get("targs") or []))
+    recv = {(direct_place(sfp, t["args"][0]) or {}).get("l") for bb, t in pushes}
+    ret = None
+    for r in sfp.defs().get(0, ()):
+        if r[0] == "stmt" and "use" in r[3]["rv"]:
+            pl = direct_place(sfp, r[3]["rv"]["use"])
+            ret = pl["l"] if pl else None
+    ctx.floor("C19-F", "StyleDecl pushes in styles_from_properties", len(pushes), 6)
+    ctx.check(len(recv) == 1 and ret in recv, "C19-F", "styles_from_properties:returns-the-pushed-vector", sfp.span, sfp.id,
+              "pushes go to %s, returned local %s" % (sorted(map(str, recv)), ret))
